@@ -191,3 +191,34 @@ def check_op(tf, w, op, full, tagp, mode, res=None, keeper=None):
 def _short(x):
     s = repr(x)
     return s if len(s) < 260 else s[:260] + '...'
+
+
+def concurrent_reads(th, eager, w, res, tag):
+    import os
+    from .. import lib
+    from ..threads import Interleaver, InterleaveError
+    out = []
+    alone = []
+    for op in th['ops']:
+        g, exc, eo = ops.try_op(lambda: ops.norm(ops.do_op(eager, w, op)))
+        alone.append((g, exc))
+    il = Interleaver(th['seed'], switch_p=th['switch_p'], trace_prefix=os.path.dirname(lib.nptdms.__file__))
+    try:
+        got = il.run([(lambda op=op: ops.norm(ops.do_op(eager, w, op))) for op in th['ops']])
+    except InterleaveError as exc:
+        return [V(tag + '-hang', 'threads reading the eagerly read file did not finish: %s' % exc)]
+    res.probe('concurrent-readers')
+    if il.switches:
+        res.probe('concurrent-readers:switched')
+    res.steps += il.points
+    res.ev('threads', il.trace[:50], il.points)
+    for op, (g0, e0), r in zip(th['ops'], alone, got):
+        label = {k: v for k, v in op.items() if k != 'ch'}
+        if r[0] == 'exc':
+            if e0 is None:
+                out.append(V(tag, '%s on %s raised %s: %s when run concurrently (%d switches), alone it returns %s' % (
+                    label, op['ch'], type(r[1]).__name__, r[1], il.switches, _short(g0)), exc=type(r[1]).__name__))
+        elif e0 is None and r[1] != g0:
+            out.append(V(tag, '%s on %s returns %s when other threads read the same channel at the same time '
+                         '(%d switches), alone it returns %s' % (label, op['ch'], _short(r[1]), il.switches, _short(g0))))
+    return out
